@@ -23,7 +23,7 @@ def dispatch (line : String) : String :=
   | ws@(cmd :: _) =>
     if cmd = "alg" || cmd = "oalg" || cmd = "callplain" then Alg.handle ws
     else if cmd = "mm" then MM.handle ws
-    else if cmd.startsWith "ri." || cmd.startsWith "at." || cmd = "mol" then RI.handle ws
+    else if cmd.startsWith "ri." || cmd.startsWith "at." || cmd = "mol" || cmd = "molg" then RI.handle ws
     else if cmd = "c18direct" || cmd = "c18run" then AFB.handle ws
     else if cmd = "ops" then Ops.handle ws
     else if cmd = "crit" || cmd = "crit-raw" then Crit.IO.handle ws
